@@ -250,7 +250,13 @@ def judge(backend, ops, r):
         if all(so[k] == outcomes[k] for k in active) and same_state(sf, final):
             return "ok", None
     must_see = r["sched"].finished_before_start() if r.get("sched") is not None else None
-    for so, sf in stale_explanations(ops, PRIOR, active, backend, must_see):
+    stale_ok = True
+    if backend == "bare" and r.get("sched") is not None and r["sched"].switch_marks:
+        # K6 on bare stores is the window between reading the tree and dulwich reading the parent commit.
+        # An operation that was pre-empted only *after* it had read the parent is refused (compare-and-swap
+        # of the ref) if somebody else committed meanwhile - a lost update there is not the recorded defect.
+        stale_ok = any(not m.get("parent_read") for _, m in r["sched"].switch_marks)
+    for so, sf in (stale_explanations(ops, PRIOR, active, backend, must_see) if stale_ok else ()):
         if all(so[k] == outcomes[k] for k in active) and same_state(sf, final):
             return "K6", f"outcomes {outcomes}, final {sorted(final)}"
     names = {n: (final[n][-60:-30] if n in final else None) for n in sorted(set(final) | set(PRIOR))}
